@@ -352,6 +352,11 @@ def run(ctx):
     import C01 as _c01
     _c01.no_reordering(ctx, 'S2', elem_types=('tags::Tag',))
 
+    # a cel that received its record is not dropped afterwards: the frame's cel row only ever grows (seed C10-l removed the guard around
+    # resize_with, which also truncates)
+    import render as _render
+    _render.cel_rows_grow_only(ctx, rule='S7')
+
     # ---------- S8: entities are born without a record ("entities without a record report none")
     # every aggregate with a user_data slot is built with None there, or moves the slot of the value it replaces (validation);
     # a record fabricated from anything else (seed C10-g: the legacy tag colour) is reported by the accessor as user data
